@@ -7,6 +7,7 @@ package http2
 import (
 	"fmt"
 	"os"
+	"reflect"
 	"sort"
 	"strconv"
 	"strings"
@@ -67,8 +68,7 @@ type vfCase struct {
 	// C13 bookkeeping
 	c13        bool
 	lvlStreak  [8][2]int  // [u][b]: consecutive Pops answered from level u that served the other class while class b was sendable
-	lvlForeign [8][2]bool // a Pop answered from another level (or by nothing) fell inside that streak
-	refToggle  bool // reference prioritizeIncremental: flips exactly at Pops that find the control FIFO empty
+	refPref    [8]bool // reference prioritizeIncremental[u]: true initially; after level u serves class i it is (i == 0)
 	lastNonInc [8]uint32
 	skipped    map[uint32]int
 	skipBound  map[uint32]int
@@ -165,16 +165,24 @@ func (c *vfCase) describe(wr FrameWriteRequest, ok bool) (vfPopped, string) {
 	return vfPopped{kind: "other"}, "ok other"
 }
 
-// Known finding: the alternation between the incremental and the non-incremental class of one urgency level
-// is driven by ONE global bit that every Pop reaching the stream queues flips, also Pops answered from another
-// urgency level (or by nothing); such Pops can lock the parity and starve one class of a level.
-const vfSigParity = "p9218-alternation-global-parity"
-
-func (c *vfCase) failSig(o *vu.Out, sig, desc string) {
-	if c.broken {
-		return
+// vfPrefBits reads the scheduler's prioritizeIncremental state by reflection, so that the harness builds
+// both against the per-urgency array and against an older tree with a single global bit.
+func vfPrefBits(ws *priorityWriteSchedulerRFC9218) string {
+	v := reflect.ValueOf(ws).Elem().FieldByName("prioritizeIncremental")
+	bit := func(b bool) string {
+		if b {
+			return "1"
+		}
+		return "0"
 	}
-	o.Fail(sig, fmt.Sprintf("[%s] %s", c.kind, desc))
+	if v.Kind() == reflect.Bool {
+		return bit(v.Bool())
+	}
+	out := ""
+	for k := 0; k < v.Len(); k++ {
+		out += bit(v.Index(k).Bool())
+	}
+	return out
 }
 
 func (c *vfCase) fail(o *vu.Out, desc string) {
@@ -275,7 +283,8 @@ func vfReset(t []string, rest []string, c13 bool) *vfCase {
 	}
 	c := &vfCase{kind: t[1], streams: map[uint32]*stream{}, startTag: map[int]int{}, wdTag: map[*writeData]int{},
 		refQ: map[uint32][]vfRef{}, refOpen: map[uint32]bool{}, everOpen: map[uint32]bool{},
-		skipped: map[uint32]int{}, skipBound: map[uint32]int{}, c13: c13}
+		skipped: map[uint32]int{}, skipBound: map[uint32]int{}, c13: c13,
+		refPref: [8]bool{true, true, true, true, true, true, true, true}}
 	c.sc = &serverConn{maxFrameSize: int32(a[0])}
 	c.sc.flow.n = int32(a[1])
 	c.initWin = int32(a[2])
@@ -506,16 +515,8 @@ func (c *vfCase) pop(o *vu.Out) (string, string) {
 	for sid, st := range c.streams {
 		snap[sid] = winSnap{st.flow.n, c.sc.flow.n, c.sc.maxFrameSize}
 	}
-	var toggleBefore bool
-	if ws, ok := c.ws.(*priorityWriteSchedulerRFC9218); ok {
-		toggleBefore = ws.prioritizeIncremental
-	}
 	ctlBefore := len(c.refCtl)
-	if c.kind == "p9218" && ctlBefore == 0 {
-		// specification (C13.toggle_flips / control_pop_keeps_toggle): the alternation flag flips at every Pop
-		// that reaches the stream queues and ONLY there; Pops that return control frames leave it alone.
-		c.refToggle = !c.refToggle
-	}
+
 
 	var wr FrameWriteRequest
 	var ok bool
@@ -558,11 +559,6 @@ func (c *vfCase) pop(o *vu.Out) (string, string) {
 		c.fail(o, "Pop returned an empty FrameWriteRequest with ok=true")
 		return opLine, line
 	case "none":
-		if c.c13 && c.kind == "p9218" && ctlBefore == 0 {
-			for u := range c.lvlForeign {
-				c.lvlForeign[u] = [2]bool{true, true}
-			}
-		}
 		if len(c.refCtl) > 0 {
 			c.fail(o, fmt.Sprintf("Pop reports nothing to write but control frame %v is queued", c.refCtl[0]))
 		}
@@ -636,7 +632,7 @@ func (c *vfCase) pop(o *vu.Out) (string, string) {
 		}
 	}
 	if c.c13 && c.kind == "p9218" {
-		c.oracleC13(o, p.sid, sendable, toggleBefore, line)
+		c.oracleC13(o, p.sid, sendable, line)
 	}
 	return opLine, line
 }
@@ -684,7 +680,7 @@ func (c *vfCase) checkTree(o *vu.Out) {
 }
 
 // oracleC13 states C13 on the implementation after a Pop that served stream sid.
-func (c *vfCase) oracleC13(o *vu.Out, sid uint32, sendable []uint32, toggleBefore bool, line string) {
+func (c *vfCase) oracleC13(o *vu.Out, sid uint32, sendable []uint32, line string) {
 	ws := c.ws.(*priorityWriteSchedulerRFC9218)
 	u, inc, ok := c.class9218(sid)
 	if !ok {
@@ -711,16 +707,21 @@ func (c *vfCase) oracleC13(o *vu.Out, sid uint32, sendable []uint32, toggleBefor
 			otherClass = true
 		}
 	}
-	_ = toggleBefore
-	if ws.prioritizeIncremental != c.refToggle {
-		c.fail(o, fmt.Sprintf("prioritizeIncremental=%v is out of step: it must flip exactly at the Pops that reach the stream queues (reference %v)", ws.prioritizeIncremental, c.refToggle))
+	// whose turn it is at this urgency level comes from the reference (C13.alternation / toggle_flips), not from
+	// the scheduler's own field: the level's state changes only when the level itself is served
+	want := uint8(0)
+	if c.refPref[u] {
+		want = 1
+	}
+	c.refPref[u] = inc == 0
+	refBits := ""
+	for _, b := range c.refPref {
+		refBits += vfB(b)
+	}
+	if got := vfPrefBits(ws); got != refBits {
+		c.fail(o, fmt.Sprintf("prioritizeIncremental=%s is out of step with the per-urgency reference %s (only the level that is served may change)", got, refBits))
 	}
 	if otherClass {
-		// whose turn it is comes from the reference flag, not from the scheduler's own field
-		want := uint8(0)
-		if c.refToggle {
-			want = 1
-		}
 		if inc != want {
 			c.fail(o, fmt.Sprintf("alternation: both classes of urgency %d were sendable, it was the turn of i=%d but stream %d (i=%d) was served", u, want, sid, inc))
 		}
@@ -728,23 +729,11 @@ func (c *vfCase) oracleC13(o *vu.Out, sid uint32, sendable []uint32, toggleBefor
 	}
 	// Level fairness, stated on the Pops answered from ONE urgency level: while both classes of the level are
 	// sendable, two consecutive Pops answered from the level must not serve the same class.
-	for lu := range c.lvlForeign {
-		if uint8(lu) != u {
-			c.lvlForeign[lu] = [2]bool{true, true}
-		}
-	}
 	other := 1 - inc
 	if otherClass {
-		if c.lvlStreak[u][other] == 0 {
-			c.lvlForeign[u][other] = false
-		}
 		c.lvlStreak[u][other]++
 		if c.lvlStreak[u][other] >= 2 {
-			sig := ""
-			if c.lvlForeign[u][other] {
-				sig = vfSigParity
-			}
-			c.failSig(o, sig, fmt.Sprintf("level starvation: %d consecutive Pops answered from urgency %d served class i=%d (last: stream %d) while a stream of class i=%d of the same urgency was sendable", c.lvlStreak[u][other], u, inc, sid, other))
+			c.fail(o, fmt.Sprintf("level starvation: %d consecutive Pops answered from urgency %d served class i=%d (last: stream %d) while a stream of class i=%d of the same urgency was sendable", c.lvlStreak[u][other], u, inc, sid, other))
 			o.Stat("c13:level-starvation")
 		}
 	} else {
@@ -833,11 +822,7 @@ func (c *vfCase) dump() string {
 			rev[m.location] = id
 		}
 		var sb strings.Builder
-		t := 0
-		if ws.prioritizeIncremental {
-			t = 1
-		}
-		fmt.Fprintf(&sb, "p9 ctl=%d t=%d buf=%d:%d", vfQLen(&ws.control), t, ws.priorityUpdateBuf.streamID,
+		fmt.Fprintf(&sb, "p9 ctl=%d t=%s buf=%d:%d", vfQLen(&ws.control), vfPrefBits(ws), ws.priorityUpdateBuf.streamID,
 			2*int(ws.priorityUpdateBuf.priority.urgency)+int(ws.priorityUpdateBuf.priority.incremental))
 		for u := 0; u < 8; u++ {
 			for i := 0; i < 2; i++ {
